@@ -99,6 +99,9 @@ type c18Terms struct {
 	// cur: parameter bindings of the frame whose values are being evaluated (see c18Frame)
 	cur   c18Env
 	iter  map[*ssa.Phi]int64 // index bindings of the unrolled walks of the current frame
+	tag   c18Tag             // the return site the results of an expanded call are read from
+	fr    *c18Frame          // the frame being evaluated (nil outside the graph)
+	g     *c18Graph
 	saved []c18TermCtx
 	// subst: construction-time fields of the writer's state, replaced by the
 	// term the constructor stored (in terms of the constructor's inputs)
@@ -106,21 +109,55 @@ type c18Terms struct {
 }
 
 type c18TermCtx struct {
+	fr   *c18Frame
 	cur  c18Env
 	ctx  []*ssa.Call
 	iter map[*ssa.Phi]int64
+	tag  c18Tag
 }
 
 // enter/leave: evaluate terms in the context of an expanded frame.
 func (tt *c18Terms) enter(fr *c18Frame) {
-	tt.saved = append(tt.saved, c18TermCtx{tt.cur, tt.ctx, tt.iter})
-	tt.cur, tt.ctx, tt.iter = fr.env, append([]*ssa.Call{}, fr.chain...), fr.iter
+	tt.saved = append(tt.saved, c18TermCtx{tt.fr, tt.cur, tt.ctx, tt.iter, tt.tag})
+	tt.fr = fr
+	tt.cur, tt.ctx, tt.iter, tt.tag = fr.env, append([]*ssa.Call{}, fr.chain...), fr.iter, c18Tag{}
 }
 
 func (tt *c18Terms) leave() {
 	s := tt.saved[len(tt.saved)-1]
 	tt.saved = tt.saved[:len(tt.saved)-1]
-	tt.cur, tt.ctx, tt.iter = s.cur, s.ctx, s.iter
+	tt.fr, tt.cur, tt.ctx, tt.iter, tt.tag = s.fr, s.cur, s.ctx, s.iter, s.tag
+}
+
+// enterNode: evaluate terms at a graph node: its frame, and the return site its tag remembers.
+func (tt *c18Terms) enterNode(n *c18Node) {
+	tt.enter(n.fr)
+	tt.tag = n.tag
+}
+
+// tagged: v is a result of the expanded call whose return site is remembered: its term at that site.
+func (tt *c18Terms) tagged(v ssa.Value, depth int) *c18T {
+	if tt.tag.call == nil || tt.tag.ret == nil {
+		return nil
+	}
+	ret := tt.tag.ret.in.(*ssa.Return)
+	idx := -1
+	switch x := v.(type) {
+	case *ssa.Extract:
+		if x.Tuple == ssa.Value(tt.tag.call) {
+			idx = x.Index
+		}
+	case *ssa.Call:
+		if x == tt.tag.call && len(ret.Results) == 1 {
+			idx = 0
+		}
+	}
+	if idx < 0 || idx >= len(ret.Results) {
+		return nil
+	}
+	tt.enterNode(tt.tag.ret)
+	defer tt.leave()
+	return tt.term(ret.Results[idx], tt.cur, depth+1)
 }
 
 func (tt *c18Terms) field(id FieldID) *c18T {
@@ -186,6 +223,9 @@ func (tt *c18Terms) term(v ssa.Value, env c18Env, depth int) *c18T {
 	tt.stack[v] = true
 	defer delete(tt.stack, v)
 	rec := func(x ssa.Value) *c18T { return tt.term(x, env, depth+1) }
+	if tv := tt.tagged(v, depth); tv != nil {
+		return tv
+	}
 
 	switch x := v.(type) {
 	case *ssa.Const:
@@ -219,9 +259,16 @@ func (tt *c18Terms) term(v ssa.Value, env c18Env, depth int) *c18T {
 		if x.Op != token.MUL {
 			return c18Unknown("unop " + x.Op.String())
 		}
-		if el := c18LiteralElem(x, tt.iter); el != nil {
-			// element of a literal slice at a known index (unrolled walk, or a constant index)
-			return rec(el)
+		if tt.g != nil && tt.fr != nil {
+			if el, ef := tt.g.literalElem(tt.fr, x); el != nil {
+				// element of a literal slice at a known index (unrolled loop, or a constant index)
+				if ef == tt.fr {
+					return rec(el)
+				}
+				tt.enter(ef)
+				defer tt.leave()
+				return tt.term(el, tt.cur, depth+1)
+			}
 		}
 		if m, _, _, ok := c18KeyElement(x); ok {
 			// element of a complete walk over the (sorted) keys of m: the key of this iteration
